@@ -34,6 +34,34 @@ func runC01reach(a hx.Args) string {
 func genC01reach(rng *hx.Rng, n int, tier string, emit func(hx.Input)) {
 	roots := posgen.Roots()
 	cnt := 0
+	one := func(b *board.Board, fen string, m move.Move, tag string) {
+		if cnt >= n {
+			return
+		}
+		rb, err := board.FromFEN(fen)
+		if err != nil {
+			return
+		}
+		in := (&hx.Nums{}).BoardIn(rb).Int(1).U(uint64(m))
+		emit(hx.Input{In: in.String(), Desc: "fen " + fen + " moves " + m.String(), Tags: []string{"reach", tag},
+			NonTrivial: true, Key: fen + m.String()})
+		cnt++
+	}
+	// the en-passant corner cases of stream c02 (a double push next to enemy pawns with pins, discovered
+	// checks, edge files): the position AFTER the push is what the generator has to get right
+	for _, w := range c02Fixed {
+		if b, err := board.FromFEN(w.fen); err == nil {
+			if m, ok := findMove(b, w.mv); ok {
+				one(b, w.fen, m, "ep-fixed")
+			}
+		}
+	}
+	for k := 0; k < n/3; {
+		if b, m, fen, ok := epPosition(rng); ok {
+			one(b, fen, m, "ep-constructed")
+			k++
+		}
+	}
 	for cnt < n {
 		root := roots[rng.Intn(len(roots))]
 		plies := 1 + rng.Intn(24)
